@@ -8,11 +8,12 @@ RULE = ('per element-content type: core = every <=1 addition (thorough <=2 for a
 ASSUMPTIONS = ['reference DFAs built from /verif/ref/musicxml_4_0.xsd are the schema (self-tested, cross-checked by C03)', 'children are minimal unchecked instances so only the parent level is judged; parents carry their schema-required attributes', 'witnesses are shrunk by delta debugging before classification; beyond a fixed number per pre-signature they are only counted']
 TIMEOUT = {'quick': 900, 'thorough': 5400}
 PROPS = ('C10',)
+NATT = 24
 
 
 def plan(tier, seed):
     return [{'mode': 'assign', 'slice': i, 'cost': 2000} for i in range(4)] + \
-        [{'mode': 'attached', 'slice': i, 'cost': 1500} for i in range(4)] + _histcheck.plan(lambda t: (genhist.n_core_additions(t, 2) + genhist.n_core_mixed(t, 1 if tier == 'quick' or len(ref.DFAS[t].alphabet) > 10 else 2) + 400) * max(1, len(ref.DFAS[t].alphabet) // 3))
+        [{'mode': 'attached', 'slice': i, 'cost': 1500} for i in range(NATT)] + _histcheck.plan(lambda t: (genhist.n_core_additions(t, 2) + genhist.n_core_mixed(t, 1 if tier == 'quick' or len(ref.DFAS[t].alphabet) > 10 else 2) + 400) * max(1, len(ref.DFAS[t].alphabet) // 3))
 
 
 def run_assign(shard, tier, seed):
@@ -99,7 +100,7 @@ def run_attached(shard, tier, seed):
                 return None, None
             kids.append(k)
         return e, kids
-    for t in [x for i, x in enumerate(types) if i % 4 == shard['slice']]:
+    for t in [x for i, x in enumerate(types) if i % NATT == shard['slice']]:
         d = ref.DFAS[t]
         cls = lib.TYPES[t]
         words = [w for w in d.words(2, limit=60 if tier == 'quick' else 400) if w]
@@ -169,7 +170,7 @@ def run_shard(shard, tier, seed):
 
 def replay_case(rp):
     if 'holder' in rp['case']:
-        res = run_attached({'slice': sorted(ref.DFAS).index(rp['case']['type']) % 4}, 'quick', 0)
+        res = run_attached({'slice': sorted(ref.DFAS).index(rp['case']['type']) % NATT}, 'quick', 0)
         mine = [v for v in res['violations'] if v['case'] == rp['case']]
         return {'violated': bool(mine), 'violations': [m['sig'] for m in mine[:3]]}
     if 'assign' in rp['case']:
